@@ -46,7 +46,7 @@ class Outcome:
 def call_loads(data, codec, config, hexbm, default_cfg=False):
     kw = dict(encoding=codec, hex_bitmap=hexbm)
     if not default_cfg:
-        kw['iso_config'] = config
+        kw['iso_config'] = gen_iso.same_object(config, len(data))
     try:
         with steps.budget(steps.limit_for(len(data))):
             return Outcome('ok', iso8583.loads(data, **kw))
